@@ -194,10 +194,18 @@ def run_pyvc(cfg, rep, tier):
             results.append(r)
     # cases with undecided obligations are re-run alone with a larger budget (verdicts must not
     # depend on how busy the 16 cores were)
+    rerun_spent = 0.0
     for i, r in enumerate(results):
         if r["crash"] is None and any(o["status"] == "unknown" for o in r["obligs"]):
+            # no second run for a case that is decided anyway (an obligation of it is refuted), that ran out of its time budget, or
+            # once the second runs have taken five minutes together: the open obligations stay `unknown` (on changed code every
+            # obligation may go to the solver's time-out, and the check has to end)
+            if rerun_spent > 300 or any(o["status"] == "refuted" for o in r["obligs"]) or any("time budget" in u for u in r["undecided"]):
+                continue
+            t_r = time.time()
             with ProcessPoolExecutor(1) as ex1:
                 r2 = list(ex1.map(_w_sym, [(modnames, r["key"], r["case"], timeout_ms * 5, expected_headers)]))[0]
+            rerun_spent += time.time() - t_r
             if r2["crash"] is None:
                 r2["secs"] += r["secs"]
                 results[i] = r2
